@@ -53,7 +53,7 @@ func damageOnce(t *rapid.T, j *ref.Journal) string {
 	pos := func() int { return rapid.IntRange(0, len(ds)).Draw(t, "insertPos") }
 	acc := func() string { return rapid.SampledFrom(j.Accounts).Draw(t, "dAcc") }
 	com := func() string { return rapid.SampledFrom(j.Commodities).Draw(t, "dCom") }
-	kind := rapid.IntRange(0, 11).Draw(t, "damage")
+	kind := rapid.IntRange(0, 12).Draw(t, "damage")
 	switch kind {
 	case 0: // drop an open
 		if idx := indices(ds, ref.KOpen); len(idx) > 0 {
@@ -171,6 +171,26 @@ func damageOnce(t *rapid.T, j *ref.Journal) string {
 		add(ref.Directive{Kind: ref.KClose, Date: day, Account: a})
 		j.Accounts = append(j.Accounts, a, src)
 		return "reopen-cycle"
+	case 12: // a day on which many accounts are closed (a year-end clean-up): one of them receives a booking that same day
+		byDay := map[ref.Day][]string{}
+		for _, d := range ds {
+			if d.Kind == ref.KClose && ref.IsAL(d.Account) {
+				byDay[d.Date] = append(byDay[d.Date], d.Account)
+			}
+		}
+		var best ref.Day
+		for day, as := range byDay {
+			if len(as) > len(byDay[best]) || (len(as) == len(byDay[best]) && day < best) {
+				best = day
+			}
+		}
+		if as := byDay[best]; len(as) >= 2 {
+			a := as[rapid.IntRange(0, len(as)-1).Draw(t, "closedAcc")]
+			b := as[rapid.IntRange(0, len(as)-1).Draw(t, "closedCounter")]
+			j.Directives = insertAt(ds, pos(), ref.Directive{Kind: ref.KTrx, Date: best, Desc: "booked on the day of the clean-up",
+				Bookings: []ref.Booking{{Credit: b, Debit: a, Qty: DrawQty(t, 2, false), Com: com()}}})
+			return "booking-on-mass-close-day"
+		}
 	case 9: // extra open at an arbitrary date
 		j.Directives = insertAt(ds, pos(), ref.Directive{Kind: ref.KOpen, Date: anyDate(), Account: acc()})
 		return "extra-open"
